@@ -41,6 +41,7 @@ type Config struct {
 	Deadline    time.Time
 	SelfCheck   bool
 	RestartEvery int
+	Redirect    map[string]string // callee full name -> harness function (same signature) in the entry package
 	RealLogger  bool // execute rogger.Logger methods instead of treating them as no-ops
 	StubError   []string // functions (name prefixes) replaced by: zero results with an arbitrary nil / non-nil error
 	SkipInit    []string // repo packages whose initialisers are not run (globals stay zero)
@@ -216,6 +217,7 @@ type Engine struct {
 	intrCache  map[*ssa.Function]string
 	objSeq     int
 	pathsSinceRestart int
+	entryPkg   *ssa.Package
 	model      map[string]uint64
 	modelValid bool
 	ModelHits  int
